@@ -73,6 +73,29 @@ def chunk_next(it, st, p):
     if isinstance(ci, Agg) and ci.name in ('Pin', 'std::pin::Pin'):
         yield from chunk_next(it, st, ci.fields[0])
         return
+    if isinstance(ci, Agg) and ci.name == 'TakeWhileS':
+        # futures_util::StreamExt::take_while(stream, |item| ready(bool)): items until the predicate first answers false
+        if ci.fields[2]:
+            yield st, it.none
+            return
+        for s2, o in chunk_next(it, st, Ptr(p.addr, p.proj + (('f', 0),))):
+            for s3, some in fork_bool(it, s2, it.variant_of(o, 'Some')):
+                if not some:
+                    yield s3, it.none
+                    continue
+                item = it.payload(o, 'Some').fields[0]
+                for s4, fut in it.call_closure(ci.fields[1], [s3.ref(item)], s3, None):
+                    if is_abnormal(fut):
+                        yield s4, fut
+                        continue
+                    keep = fut.fields[0] if isinstance(fut, Agg) and fut.name == 'ReadyFut' else fut
+                    for s5, k in fork_bool(it, s4, keep):
+                        if k:
+                            yield s5, it.some(item)
+                        else:
+                            s5.write(Ptr(p.addr, p.proj + (('f', 2),)), True)
+                            yield s5, it.none
+        return
     pos, n, items = ci.fields
     if pos >= len(items):
         yield st, it.none
@@ -112,7 +135,17 @@ def M_poll_try_next(it, ctx, args, st):
                     yield s4, Enum(POLL, bv(0), ((0, Agg('Ready', (r,))),))
 
 
+def M_stream_take_while(it, ctx, args, st):
+    yield st, Agg('TakeWhileS', (args[0], args[1], False))
+
+
+def M_future_ready(it, ctx, args, st):
+    yield st, Agg('ReadyFut', (args[0],))
+
+
 ASYNC_MODELS = [
+    (r'<.* as futures_util::StreamExt>::take_while::<.*>', M_stream_take_while),
+    (r'futures_util::future::ready::<.*>', M_future_ready),
     (r'std::pin::Pin::<.*>::new_unchecked|std::pin::Pin::<.*>::new', M_pin_new),
     (r'<std::pin::Pin<&mut .*> as futures_util::TryStreamExt>::try_next', M_try_next),
     (r'<.* as std::future::IntoFuture>::into_future', T_identity),
